@@ -29,6 +29,7 @@ Print Assumptions C17_targets.
 Print Assumptions C17_data.
 Print Assumptions C17_int_content.
 Print Assumptions C17_numbers_wellformed.
+Print Assumptions C17_whole_floats_wellformed.
 Print Assumptions C17_no_duplicates_no_loss.
 Print Assumptions Known_C17_nonfinite_witness.
 Print Assumptions Known_C17_config_chars_witness.
